@@ -195,6 +195,7 @@ package relationtuple
 //@ func (*handler).patchRelationTuples
 //@   props C04 C05 C13
 //@   requires wfrh(h) && r != nil && r.URL != nil && w != nil && r.Body != nil
+//@   loop 1 invariant forall k in 0..$n :: deltas[k] != nil && deltas[k].RelationTuple != nil
 
 //@ func (*handler).patchRelationTuples$1
 //@   props C04 C05 C13
